@@ -9,6 +9,9 @@ A_COMMON = [
 def e3(what, shards_q=16, shards_t=16):
     return {'engine': 'e3_aes', 'variant': 'V', 'args': [f'--what={what}'], 'shards': {'quick': shards_q, 'thorough': shards_t}}
 
+def e2(what, sq=16, st=16):
+    return {'engine': 'e2_seg', 'variant': 'V', 'args': [f'--what={what}'], 'shards': {'quick': sq, 'thorough': st}}
+
 PLANS = {
  'C02': {
   'level': 'exploration', 'steps': [e3('gcm')], 'eval_stats': ['calls_gcm'], 'distinct_key': 'shape',
@@ -27,5 +30,30 @@ PLANS = {
   'rule': "key expansion: {128,192,256} x {sse,avx} (+_enc variant) x keys {zero, ones, counting, seeded random} x key/schedule alignments, both schedules compared word for word with FIPS-197 (+InvMixColumns); CBC: len=16N, N in [1,70] + {255,256,257}(+4096) x {x4,x8} enc x {sse,avx,vaes_avx512} dec x key sizes x offsets x in-place/disjoint against SP 800-38A reference",
   'bound': {'quick': '120 keys; N<=70; 3 offsets', 'thorough': '600 keys; N<=70 + 4096; 16 offsets'},
   'deadline': {'quick': 120, 'thorough': 1200}, 'assumptions': A_COMMON,
+ },
+ 'C05': {
+  'level': 'exploration', 'steps': [e2('mh1'), e2('mh256')], 'eval_stats': ['streams'], 'distinct_key': 'shape',
+  'rule': "all update segmentations (l1,l2[,l3]) of a stream followed by finalize, on every family {base,sse,avx,avx2,avx512} of mh_sha1 and mh_sha256, plus the public dispatched entry points; quick: l1 in [0,1040] x structured l2 set (block boundaries +-1, complements of l1 to 1024/2048) x third piece from {0,1,17,1023,1024,1025}; thorough: l1,l2 in [0,2049]^2; compared with the multi-hash definition computed by an independent reference; distinct = (family entry, piece lengths)",
+  'bound': {'quick': 'l1<=1040, ~36 l2 values, 3 l3 values', 'thorough': 'l1,l2 in [0,2049]^2 + l3'},
+  'deadline': {'quick': 240, 'thorough': 3000}, 'assumptions': A_COMMON + ['stream lengths stay below 6200 bytes; the 2^32 bound of the property is touched only through the 32-bit total-length cast'],
+ },
+ 'C10': {
+  'level': 'exploration', 'steps': [e2('mur')], 'eval_stats': ['streams'], 'distinct_key': 'shape',
+  'rule': "as C05 for the stitched mh_sha1+murmur3_x64_128 function on every family, seeds {0,1,2^32-1,2^63,0x0123456789abcdef} rotated over the cases, second pieces additionally all of [0,40] so that every (total mod 16) x (position in the 1024-byte block) carry of the murmur tail occurs; both outputs compared with stand-alone references",
+  'bound': {'quick': 'l1<=1040, ~77 l2 values', 'thorough': 'l1,l2 in [0,2049]^2'},
+  'deadline': {'quick': 240, 'thorough': 3000}, 'assumptions': A_COMMON,
+ },
+ 'C07': {
+  'level': 'exploration', 'steps': [e2('gcms')], 'eval_stats': ['streams'], 'distinct_key': 'shape',
+  'rule': "init/update*/finalize on every GCM family x {128,256} x {enc,dec}: (a) all compositions of len<=64 (96 thorough) into 3 pieces incl. empty ones, (b) carried residue r in [0,15] x fill amounts {16-r-1,16-r,16-r+1,+15..+769} x third piece, (c) first piece 0..48 followed by loop-boundary pieces {127..2048}, (d) non-temporal update under its documented rule (64-byte aligned, non-final pieces multiples of 64); output compared with the same family's one-shot call after every update (prefix) and after finalize (tag)",
+  'bound': {'quick': 'sum<=64 for compositions', 'thorough': 'sum<=96'},
+  'deadline': {'quick': 240, 'thorough': 3000}, 'assumptions': A_COMMON,
+ },
+ 'C09': {
+  'level': 'model_checking', 'steps': [e2('roll', 16, 16)], 'eval_stats': ['transitions', 'chain_calls', 'mask_gen_calls'], 'distinct_key': 'roll_state',
+  'state_stats': [], 'state_distinct': ['roll_state'], 'transition_stats': ['transitions'], 'trace_stats': ['transitions', 'chain_calls'],
+  'rule': "explicit-state search on the real isal_rolling_hash2_run: state = stream position p with the canonical (hash, last w bytes) restored, transition = run(max_len m) for every m in [0,N-p]; for w in [1,48] x scan routine {base,_00,_04} (dispatch slot re-pointed) x 11 (mask,trigger) pairs; after every transition (offset, match) must equal the definition from the pinned table and the resulting state must be the canonical state of position p+offset, which by induction covers every partition of the stream into any number of calls; chained runs without state restore validate the canonical-state abstraction against states genuinely reached from reset; plus exhaustive mask_gen sweep",
+  'bound': {'quick': 'stream length w+70', 'thorough': 'stream length w+150'},
+  'deadline': {'quick': 240, 'thorough': 3000}, 'assumptions': A_COMMON + ['history bytes at index >= w are not part of the canonical state (never read for i < w by construction of the API)'],
  },
 }
